@@ -1384,6 +1384,12 @@ def gen_ctrl(g, profile='ctrl'):
     if g.cfg.get('only_scripted'):
         kinds = ['Scripted']
     scn['rules'] = [rule(kd) for kd in kinds]
+    n_runs = sum(1 for o in sched if o['op'] == 'run')
+    if n_runs >= 2 and scn['rules'] and g.chance(0.2) and \
+            not g.cfg.get('only_scripted'):
+        # one rule is added to the same controller between two runs
+        scn['rules'][r.randrange(len(scn['rules']))]['from_run'] = \
+            r.randrange(1, n_runs)
     for op in sched:
         if op['op'] == 'run':
             op['control'] = bool(scn['rules']) or g.chance(0.5)
